@@ -162,6 +162,9 @@ class Unit:
                 sp = self.src(s.args[0]).find_const(s.args[1])
                 notes = Notes()
                 txt = apply_rules(sp.text, ['R8'], notes)
+                if re.search(r':\s*&str\b', txt):
+                    txt = re.sub(r':\s*&str\b', ": &'static str", txt, count=1)
+                    notes.add('W', "elided lifetime of a const &str written out ('static)")
                 self.items.append(Item(s.args[1], 'const', txt, origin=sp.describe(), notes=notes))
             elif k == 'type':
                 sp = self.src(s.args[0]).find_type(s.args[1])
@@ -203,6 +206,16 @@ class Unit:
             if not m:
                 raise ExtractError('bad @subst: ' + arg)
             old, new, why = m.group(1), m.group(2), m.group(4) or ''
+            if txt.count(old) < 1:
+                # whitespace-insensitive match (a site that spans several source lines is written on one line in the .ctr)
+                rx = r'\s*'.join(re.escape(tok) for tok in old.split())
+                mws = re.search(rx, txt) if old.split() else None
+                if mws:
+                    txt = txt[:mws.start()] + new + txt[mws.end():]
+                    notes.add('SUBST', '`%s` => `%s` (%s)' % (old, new, why))
+                    if item is not None:
+                        item.substs.append((old, new, why))
+                    continue
             if txt.count(old) < 1:
                 # the code no longer contains the site this rewrite was written for: go on without it and let the
                 # verifier decide (a non-verification error from Verus then yields UNDECIDED, never VIOLATION)
@@ -643,6 +656,12 @@ def weave(txt, s, notes, canary=False):
             if k < 1 or k > len(loops):
                 raise ExtractError('@loopbody %d: function %s has %d loops' % (k, s.args[1], len(loops)))
             inserts.append((loops[k - 1][1] + 1, '\n' + body + '\n'))
+        elif name == 'loopend':
+            k = int(arg.split()[0])
+            loops = _loops(mask, body_open, body_close)
+            if k < 1 or k > len(loops):
+                raise ExtractError('@loopend %d: function %s has %d loops' % (k, s.args[1], len(loops)))
+            inserts.append((match_close(mask, loops[k - 1][1]), '\n' + body + '\n'))
         elif name == 'attr':
             attr_lines.append((arg + ' ' + body).strip())
         elif name == 'top':
